@@ -123,4 +123,25 @@ Definition s_batch (a : args) : list (list Z) :=
   [[zb (batch_ok rc (firstn nf rest) (skipn nf rest))]].
 Definition ops_C09b : list (string * opfun) := [ ("c09.batch.spec", s_batch) ].
 
-Definition ops_C09 : list (string * opfun) := ops_C09a ++ ops_C09b.
+(* RunEndBuffer::new(run_ends, logical_offset, logical_length) and OffsetBuffer::new(offsets): the typed buffer
+   constructors panic unless their invariant holds.  Specs over unbounded Z (no wrap-around of offset + length).
+   c09.run_end_buffer: [width bytes][ends][offset][len] -> [accepted]
+   c09.offset_buffer : [width bytes][offsets] -> [accepted] *)
+Fixpoint strictly_increasing (l : list Z) : bool :=
+  match l with x :: ((y :: _) as r) => (x <? y)%Z && strictly_increasing r | _ => true end.
+Definition s_run_end_buffer (a : args) : list (list Z) :=
+  let w := argz 0 a in let ends := arg 1 a in let off := argz 2 a in let len := argz 3 a in
+  let tmax := (2 ^ (8 * w - 1) - 1)%Z in
+  [[zb (strictly_increasing ends &&
+        (Z.eqb len 0 ||
+         (negb (match ends with [] => true | _ => false end) &&
+          (off + len <=? tmax)%Z && (0 <? hd 0%Z ends)%Z && (off + len <=? last ends 0%Z)%Z)))]].
+Fixpoint monotone_z (l : list Z) : bool :=
+  match l with x :: ((y :: _) as r) => (x <=? y)%Z && monotone_z r | _ => true end.
+Definition s_offset_buffer (a : args) : list (list Z) :=
+  let offs := arg 1 a in
+  [[zb (negb (match offs with [] => true | _ => false end) && (0 <=? hd 0%Z offs)%Z && monotone_z offs)]].
+Definition ops_C09c : list (string * opfun) :=
+  [ ("c09.run_end_buffer.spec", s_run_end_buffer); ("c09.offset_buffer.spec", s_offset_buffer) ].
+
+Definition ops_C09 : list (string * opfun) := ops_C09a ++ ops_C09b ++ ops_C09c.
